@@ -10,7 +10,7 @@ from typing import Dict, List, Optional, Tuple
 from ..framework import Check
 from ..values_common import (FAM, INT_KINDS, FLOAT_KINDS, INT_RANGE, INT_WIDTH, CTYPE, EXC_NAMES, F32_OVERFLOW,
                              F64_OVERFLOW_INT, Layouts, get_layouts, run_worker, run_worker_parallel,
-                             regen_or_report, val_json, case_coq, CHECK_STRICT, CHECK_LENIENT, HEADER, zl,
+                             regen_or_report, eval_cases_robust, val_json, case_coq, CHECK_STRICT, CHECK_LENIENT, HEADER, zl,
                              f64_bits, f64_from_bits, f32_round,
                              V_int, V_bool, V_float, V_fbits, V_numlike, V_str, V_bytes, V_none, V_list, V_cinst,
                              V_struct, V_arr, V_sarr)
@@ -179,7 +179,7 @@ def gen_ops(L: Layouts, idx: Dict[str, int], rng: random.Random, tier: str) -> L
             op("VM_SCALARS", fn, v, tag="scalar")
             op("VM_SCALARS", fn, v, enabled=False, tag="scalar-off")
     for fn, v in [("int8", V_int(1)), ("s5", V_str("a"))]:
-        op("VM_SCALARS", fn, v, key=["i", 0], tag="scalar-key")
+        op("VM_SCALARS", fn, v, key=["i", 0], tag="scalar-key", mode=0)   # zero image: the getter must not fail first
     # --- histories on one string field are exercised by C10; here: every prefix length of String(5)
     for s in ["", "a", "ab", "abc", "abcd", "abcde", "ab\x00cd", "\x00abc"]:
         op("VM_SCALARS", "s5", V_str(s), tag="string", mode=1)
@@ -735,16 +735,16 @@ def run(chk: Check):
             _report(v[0], v[1], dict(kind="op", classes=specs, compiled=comp,
                                                               op={k: x for k, x in o.items() if not k.startswith("_")},
                                                               observed=r))
-    bad, log = FAM.eval_cases(CHECK_STRICT, cases, per_file=250) if gen_ok else ([], "")
+    bad, log = eval_cases_robust(CHECK_STRICT, cases, per_file=250) if gen_ok else ([], "")
     hard = []
     soft = 0
     if bad:
         if any(b < 0 for b in bad):
-            chk.broken_obligation("correspondence shard failed to evaluate", log[-800:])
+            chk.broken_obligation("correspondence shard failed to evaluate", log[:1500])
         cand = [b for b in bad if b >= 0]
-        bad2, log2 = FAM.eval_cases(CHECK_LENIENT, [cases[b] for b in cand], per_file=250)
+        bad2, log2 = eval_cases_robust(CHECK_LENIENT, [cases[b] for b in cand], per_file=250)
         if any(b < 0 for b in bad2):
-            chk.broken_obligation("correspondence shard failed to evaluate", log2[-800:])
+            chk.broken_obligation("correspondence shard failed to evaluate", log2[:1500])
         hard = [cand[b] for b in bad2 if b >= 0]
         soft = len(cand) - len(hard)
     for b in hard[:4]:
@@ -776,10 +776,10 @@ def run(chk: Check):
         nflag += 1
         for key, desc in flag_spec_failures(sc, obs):
             _report(key, desc, dict(kind="with", prog=p, observed=obs))
-    fbad, flog = FAM.eval_cases(FLAG_HEADER, fcases, per_file=400, tag="f") if gen_ok else ([], "")
+    fbad, flog = eval_cases_robust(FLAG_HEADER, fcases, per_file=400, tag="f") if gen_ok else ([], "")
     for b in fbad[:3]:
         if b < 0:
-            chk.broken_obligation("flag correspondence shard failed to evaluate", flog[-800:])
+            chk.broken_obligation("flag correspondence shard failed to evaluate", flog[:1500])
         else:
             chk.broken_obligation("correspondence Model/Flag.v vs disable_message_validation differs", fcases[b][:400])
 
